@@ -59,6 +59,10 @@ func init() {
 	registerLogic(logicUnit{Name: "LogicSack", Dir: "sack", Targets: []logicTarget{
 		{Fn: "sackDriver.handleProbeLayers", Lean: "handleProbeLayers"},
 		{Fn: "sackDriver.getRTTFromRelSeq", Lean: "getRTTFromRelSeq"},
+		{Fn: "getMinSack", Lean: "getMinSackStep", LoopStep: true, Pick: func(s ast.Stmt) bool {
+			fs, ok := s.(*ast.ForStmt)
+			return ok && fs.Init != nil && fs.Cond != nil && fs.Post != nil
+		}},
 	}})
 	registerLogic(logicUnit{Name: "LogicRunner", Dir: "traceroute", Targets: []logicTarget{
 		{Fn: "performTCPFallback", Lean: "performTCPFallback"},
